@@ -122,7 +122,7 @@ def check_spec(case, ctx):
 
 # --------------------------------------------------------------------------- lists
 
-POOL = ['a', 'b', 'a b', 'a>b', '.c', '#i', 'a:hover', 'li:nth-child(2n+1)', 'a[href]', ':not(.x)', 'p::first-line', '*']
+POOL = ['a', 'b', 'a b', 'a>b', '.c', '#i', '#aabbcc', '#abc', 'a:hover', 'li:nth-child(2n+1)', 'a[href]', ':not(.x)', 'p::first-line', '*']
 SPELL = {'a b': ['a   b', 'a\n\tb'], 'a>b': ['a > b', 'a>b'], 'a:hover': ['a:HOVER'], ':not(.x)': [':NOT( .x )'],
          'li:nth-child(2n+1)': ['li:NTH-CHILD(2n+1)'], 'a[href]': ['a[ href ]']}
 INVALID = ['a,,b', '1a', 'a:::b', '', 'a[', 'a >', '.#x', 'a b,', '@x', 'a{', ':not(a b)', 'a:not()']
@@ -131,8 +131,8 @@ lop = st.one_of(
     st.tuples(st.just('append'), st.integers(0, len(POOL) - 1), st.integers(0, 2)),
     st.tuples(st.just('append'), st.integers(0, len(POOL) - 1), st.just(0)),
     st.tuples(st.just('append_bad'), st.integers(0, len(INVALID) - 1)),
-    st.tuples(st.just('setitem'), st.integers(0, 4), st.integers(0, len(POOL) - 1)),
-    st.tuples(st.just('setitem_bad'), st.integers(0, 4), st.integers(0, len(INVALID) - 1)),
+    st.tuples(st.just('setitem'), st.integers(-4, 4), st.integers(0, len(POOL) - 1)),
+    st.tuples(st.just('setitem_bad'), st.integers(-4, 4), st.integers(0, len(INVALID) - 1)),
     st.tuples(st.just('text'), st.lists(st.integers(0, len(POOL) - 1), min_size=1, max_size=4)),
     st.tuples(st.just('text_bad'), st.lists(st.integers(0, len(POOL) - 1), min_size=0, max_size=3),
               st.integers(0, len(INVALID) - 1), st.integers(0, 3)),
@@ -204,12 +204,13 @@ def check_list(case, ctx):
             elif kind == 'append_bad':
                 call = lambda: sl.appendSelector(INVALID[o[1]])  # noqa: E731
             elif kind == 'setitem':
-                if o[1] >= len(model):
+                if not -len(model) <= o[1] < len(model):
                     continue
-                newmodel = model[:o[1]] + [canon[o[2]]] + model[o[1] + 1:]
+                newmodel = list(model)
+                newmodel[o[1]] = canon[o[2]]
                 call = lambda: sl.__setitem__(o[1], POOL[o[2]])  # noqa: E731
             elif kind == 'setitem_bad':
-                if o[1] >= len(model):
+                if not -len(model) <= o[1] < len(model):
                     continue
                 call = lambda: sl.__setitem__(o[1], INVALID[o[2]])  # noqa: E731
             elif kind == 'text':
